@@ -420,6 +420,8 @@ func (c *Chain) Crash() (same bool, detail string) {
 	if !wasIn {
 		return true, ""
 	}
+	// the interrupted block is replayed as recorded, including the misbehaviour it reported
+	c.NextEvidence = blk.Begin.ByzantineValidators
 	c.BeginBlock(blk.Begin.Header.Time)
 	same = true
 	note := func(f string, a ...interface{}) {
